@@ -479,6 +479,18 @@ def C07.reuseHolds (c : Ctx) (j : Journal) : Bool :=
   let tainted := nodesOf c.dry c.st .tainted c.view.nodes
   !(j.any isResizeRequest) || tainted.all (fun x => (getNames j).contains x.name)
 
+/-- C10, "can be tainted ... like any other node": when a scan taints, a protected untainted node is taken in its turn
+    (oldest first) like an unprotected one: it is not passed over (no GET for it) while a strictly younger node is
+    tainted. -/
+def C10.taintBad (c : Ctx) (j : Journal) : List String :=
+  let unt := nodesOf c.dry c.st .untainted c.view.nodes
+  let attempted := getNames j
+  let tainted := taintedNames c.view j
+  if c.dry then [] else
+  (unt.filter (fun x => protectedNode x && !attempted.contains x.name &&
+      unt.any (fun y => tainted.contains y.name && decide (x.created < y.created)))).map (fun x =>
+    "protected untainted node " ++ x.name ++ " was passed over by the taint loop although strictly older than the nodes it tainted " ++ toString tainted)
+
 /-- C10, "can be ... untainted like any other node": a tainted node protected by the no-delete annotation is handed
     back before the cloud is asked for more, and in its turn (newest first), exactly like an unprotected one. -/
 def C10.untaintBad (c : Ctx) (j : Journal) : List String :=
@@ -524,7 +536,10 @@ def C07.shortfall (c : Ctx) (want : Int) (j : Journal) : List String :=
       | .setDesired _ v => some (v - cur)
       | .createFleet r => some r.total
       | _ => none)
-    if expect ≤ 0 then []
+    -- launch-template mode reads the group's subnets (DescribeAutoScalingGroups) before it can build the fleet request:
+    -- if that read is refused, the scan did try to ask and could not
+    let prepFailed := j.any (fun e => !e.ok && (match e.call with | .describeAsgs _ => true | _ => false))
+    if expect ≤ 0 || prepFailed then []
     else match asked with
       | [] => ["needed " ++ toString want ++ ", untainted " ++ toString u ++ ", but asked the cloud for nothing (room for " ++ toString (bnd - cur) ++ ")"]
       | a :: _ => if a < expect then ["needed " ++ toString want ++ ", untainted " ++ toString u ++ ", asked the cloud for only " ++ toString a] else []
